@@ -220,44 +220,97 @@ func runGoroutines(r *sup.CaseResult, n int, body func(g int)) bool {
 	close(start)
 	done := make(chan struct{})
 	go func() { wg.Wait(); close(done) }()
-	select {
-	case <-done:
-		return true
-	case <-time.After(60 * time.Second):
-		d1 := dump()
-		s1 := atomic.LoadInt64(&steps)
-		time.Sleep(time.Second)
-		d2 := dump()
-		if s1 == atomic.LoadInt64(&steps) && parkedInMemfs(d1) && stacksEqual(d1, d2) {
-			r.Violate("blocked-forever", "workload goroutines are parked inside memfs with identical stacks in two dumps one second apart and no progress", map[string]any{"dump": clip(d2, 6000)})
-		} else {
-			r.Inconclusive = "workload did not finish within the watchdog and no logical deadlock was diagnosed"
+	// bounded progress: completion, or a logical-deadlock diagnosis (never a bare timeout)
+	for waited := 0; waited < 24; waited++ {
+		select {
+		case <-done:
+			return true
+		case <-time.After(5 * time.Second):
 		}
+		s1 := atomic.LoadInt64(&steps)
+		g1 := workloadGoroutines(dump())
+		time.Sleep(time.Second)
+		g2 := workloadGoroutines(dump())
+		if s1 == atomic.LoadInt64(&steps) && len(g1) > 0 && allParked(g1) && sameStacks(g1, g2) {
+			select {
+			case <-done:
+				return true
+			default:
+			}
+			poisoned = true
+			var sb strings.Builder
+			for _, b := range g2 {
+				sb.WriteString(b.raw + "\n\n")
+			}
+			r.Violate("blocked-forever", fmt.Sprintf("%d workload goroutines are parked in lock acquisition inside memfs with identical stacks in two dumps one second apart and no goroutine finished in between", len(g2)), map[string]any{"dump": clip(sb.String(), 8000)})
+			return false
+		}
+	}
+	poisoned = true
+	r.Inconclusive = "workload did not finish within the watchdog and no logical deadlock was diagnosed"
+	return false
+}
+
+var poisoned bool
+
+type gblock struct {
+	id    string
+	state string
+	body  string
+	raw   string
+}
+
+// workloadGoroutines returns the goroutines of a full dump that belong to the running workload.
+func workloadGoroutines(d string) []gblock {
+	var out []gblock
+	for _, blk := range strings.Split(d, "\n\n") {
+		if !strings.Contains(blk, "main.runGoroutines.func1") {
+			continue
+		}
+		lines := strings.SplitN(blk, "\n", 2)
+		if len(lines) < 2 || !strings.HasPrefix(lines[0], "goroutine ") {
+			continue
+		}
+		h := lines[0]
+		b := gblock{raw: blk, body: lines[1]}
+		if i := strings.Index(h, "["); i > 0 {
+			b.id = strings.TrimSpace(h[:i])
+			b.state = strings.TrimSuffix(strings.TrimSpace(h[i+1:]), "]:")
+			if j := strings.Index(b.state, ","); j > 0 {
+				b.state = b.state[:j]
+			}
+		}
+		out = append(out, b)
+	}
+	sort.Slice(out, func(i, j int) bool { return out[i].id < out[j].id })
+	return out
+}
+
+func allParked(gs []gblock) bool {
+	for _, g := range gs {
+		parked := strings.HasPrefix(g.state, "sync.") || strings.HasPrefix(g.state, "semacquire")
+		if !parked || !strings.Contains(g.body, "filespace/memfs.") {
+			return false
+		}
+	}
+	return true
+}
+
+func sameStacks(a, b []gblock) bool {
+	if len(a) != len(b) {
 		return false
 	}
+	for i := range a {
+		if a[i].id != b[i].id || a[i].state != b[i].state || a[i].body != b[i].body {
+			return false
+		}
+	}
+	return true
 }
 
 func dump() string {
 	buf := make([]byte, 1<<20)
 	return string(buf[:runtime.Stack(buf, true)])
-}
-func parkedInMemfs(d string) bool {
-	return strings.Contains(d, "filespace/memfs.") && (strings.Contains(d, "sync.Mutex.Lock") || strings.Contains(d, "sync.RWMutex") || strings.Contains(d, "semacquire"))
-}
-func stacksEqual(a, b string) bool {
-	strip := func(s string) string {
-		var out []string
-		for _, l := range strings.Split(s, "\n") {
-			if strings.HasPrefix(l, "goroutine ") {
-				if i := strings.Index(l, "["); i > 0 {
-					l = l[:i]
-				}
-			}
-			out = append(out, l)
-		}
-		return strings.Join(out, "\n")
-	}
-	return strip(a) == strip(b)
 }
 func clip(s string, n int) string {
 	if len(s) > n {
@@ -889,6 +942,77 @@ func w4(r *sup.CaseResult, rng *rand.Rand, g int) {
 	r.AddObs("w4_ops", int64(len(steps)))
 }
 
+// ---- W6: directory copies racing with mkdir / remove of empty sub-directories and listers -----------------
+
+func w6(r *sup.CaseResult, rng *rand.Rand, g int) {
+	fs, _ := memfs.NewFilespace()
+	fs.WriteFile("p/keep", []byte(mkValue(998, 0)), 0644)
+	fs.MkdirAll("p/s/t", 0777)
+	rounds := 10 + rng.Intn(30)
+	var copies, removes int64
+	var mu sync.Mutex
+	ok := runGoroutines(r, g, func(i int) {
+		for k := 0; k < rounds; k++ {
+			switch i % 4 {
+			case 0: // create and remove an empty directory below p
+				d := fmt.Sprintf("p/c%d", i%3)
+				fs.MkdirAll(d, 0777)
+				runtime.Gosched()
+				if fs.Remove(d) == nil {
+					atomic.AddInt64(&removes, 1)
+				}
+			case 1: // copy p (or the root of the subtree) somewhere else, check the copy, drop it
+				dst := fmt.Sprintf("q%d", i)
+				var err error
+				if k%2 == 0 {
+					err = fs.CopyDirectory("p", dst)
+				} else {
+					err = fs.Copy("p", dst)
+				}
+				if err == nil {
+					atomic.AddInt64(&copies, 1)
+					if got, e := fs.ReadFile(dst + "/keep"); e != nil || string(got) != mkValue(998, 0) {
+						mu.Lock()
+						r.Violate("copy-incomplete", fmt.Sprintf("copy of p to %s succeeded but %s/keep reads %q (err %v)", dst, dst, clip(string(got), 60), e), nil)
+						mu.Unlock()
+					}
+					if !fs.IsDir(dst + "/s/t") {
+						mu.Lock()
+						r.Violate("copy-incomplete", fmt.Sprintf("copy of p to %s succeeded but %s/s/t is missing", dst, dst), nil)
+						mu.Unlock()
+					}
+				}
+				fs.RemoveAll(dst)
+			case 2: // nested empty directory churn
+				fs.MkdirAll("p/s/t/u", 0777)
+				fs.Remove("p/s/t/u")
+			case 3:
+				if infos, err := fs.ReadDir("p"); err == nil {
+					seen := map[string]bool{}
+					for _, fi := range infos {
+						if seen[fi.Name()] {
+							mu.Lock()
+							r.Violate("listing-duplicate", fmt.Sprintf("ReadDir(p) lists %q twice", fi.Name()), nil)
+							mu.Unlock()
+						}
+						seen[fi.Name()] = true
+					}
+				}
+				fs.IsDir("p/s/t")
+			}
+		}
+	})
+	if !ok {
+		return
+	}
+	if got, err := fs.ReadFile("p/keep"); err != nil || string(got) != mkValue(998, 0) {
+		r.Violate("write-lost", fmt.Sprintf("p/keep, never modified, reads %q (err %v) after concurrent copies/removes", clip(string(got), 60), err), nil)
+	}
+	r.AddObs("w6_runs", 1)
+	r.AddObs("w6_directory_copies", copies)
+	r.AddObs("w6_empty_dir_removes", removes)
+}
+
 // -----------------------------------------------------------------------------------------------------------
 
 func plan(tier string, seed int64) []sup.Batch {
@@ -918,7 +1042,7 @@ func main() {
 		ID:    "C09",
 		Level: "exploration",
 		Race:  true,
-		Rule: "2…32 goroutines on one memfs (GOMAXPROCS 1/2/4/16, yields/sleeps injected at the three memfs verif hook points): W1 writers to distinct files in shared directories + listers (unique names, no phantom, every successful write present at quiescence); W2/W5 writers/readers/removers (whole-file and always-closed stream handles) on 1–3 shared files with unique checksummed values – every value read is complete and was written, and the recorded per-file history is checked with porcupine against a register-with-existence model; W3 N concurrent creations of the same new node (WriteFile, MkdirAll, Copy to one destination, MkdirAll vs WriteFile below it) give one node; W4 short mixed histories on a 6-node tree – whole-tree porcupine model (observational) plus the spelled-out clauses (an undisturbed successful mutation is visible at quiescence, names once, values whole). Process-fatal errors, panics, a deadlock diagnosis from two goroutine dumps and race reports in memfs/* decide. distinct = (workload, goroutines, seed index)",
+		Rule:  "2…32 goroutines on one memfs (GOMAXPROCS 1/2/4/16, yields/sleeps injected at the three memfs verif hook points): W1 writers to distinct files in shared directories + listers (unique names, no phantom, every successful write present at quiescence); W2/W5 writers/readers/removers (whole-file and always-closed stream handles) on 1–3 shared files with unique checksummed values – every value read is complete and was written, and the recorded per-file history is checked with porcupine against a register-with-existence model; W3 N concurrent creations of the same new node (WriteFile, MkdirAll, Copy to one destination, MkdirAll vs WriteFile below it) give one node; W6 directory copies (Copy/CopyDirectory) racing with MkdirAll/Remove of empty sub-directories, RemoveAll of the copies and listers (copies complete, completion or deadlock diagnosis); W4 short mixed histories on a 6-node tree – whole-tree porcupine model (observational) plus the spelled-out clauses (an undisturbed successful mutation is visible at quiescence, names once, values whole). Process-fatal errors, panics, a deadlock diagnosis from two goroutine dumps and race reports in memfs/* decide. distinct = (workload, goroutines, seed index)",
 		Assumptions: []string{
 			"'not linearizable' for a mixed W4 history is an observation only; a violation needs a witness against a clause the statement spells out (operations on related paths – ancestor/descendant – are not 'distinct paths')",
 			"'blocks forever' is restated as: the workload completes, or two goroutine dumps one second apart show the same parked stacks inside memfs and no progress (violation); watchdog expiry without that diagnosis is inconclusive",
@@ -934,12 +1058,24 @@ func main() {
 				}
 				c.Case(from, map[string]any{"from": from, "to": to}, func(r *sup.CaseResult) {
 					for idx := from; idx < to && len(r.Violations) == 0 && r.Inconclusive == ""; idx++ {
+						if poisoned {
+							r.AddObs("trials_skipped_after_a_blocked_workload", 1)
+							continue
+						}
 						rng := c.Rand(idx)
 						g := []int{2, 3, 4, 8, 16, 32}[rng.Intn(6)]
 						r.Evals++
-						r.AddKey(fmt.Sprintf("w%d|%d|%d|%d", idx%5, idx, g, rng.Int63()))
+						r.AddKey(fmt.Sprintf("w%d|%d|%d|%d", idx%6, idx, g, rng.Int63()))
 						armNoise(rng.Uint64(), rng.Intn(3))
-						switch idx % 5 {
+						switch idx % 6 {
+						case 5:
+							if g > 16 {
+								g = 16
+							}
+							if g < 4 {
+								g = 4
+							}
+							w6(r, rng, g)
 						case 0:
 							w1(r, rng, g)
 						case 1:
@@ -969,7 +1105,7 @@ func main() {
 			}
 		},
 		Finish: func(t *sup.Totals) string {
-			for _, k := range []string{"w1_runs", "w2_runs", "w3_runs", "w4_runs", "w5_runs", "porcupine_ok", "memfs_hook_hits", "w4_undisturbed_mutations_checked"} {
+			for _, k := range []string{"w1_runs", "w2_runs", "w3_runs", "w4_runs", "w5_runs", "w6_runs", "w6_directory_copies", "porcupine_ok", "memfs_hook_hits", "w4_undisturbed_mutations_checked"} {
 				if t.Obs[k] == 0 {
 					return "monitor observed nothing for " + k
 				}
